@@ -14,6 +14,8 @@ import (
 	"sync"
 	"time"
 
+	"crypto/sha256"
+	"encoding/binary"
 	"github.com/bbva/qed/api/apihttp"
 	"github.com/bbva/qed/api/mgmthttp"
 	"github.com/bbva/qed/balloon"
@@ -328,6 +330,39 @@ func httpCmd(out *cq.Out, seed uint64, tier string) {
 			conn.Close()
 			out.Case("oversized-content-length", true)
 			out.Count("oversized_length_answered", map[bool]int{true: 1, false: 0}[nr > 0])
+		}
+		// events chosen by a client so that their digests share long prefixes (a second of hashing finds three strings whose
+		// SHA-256 digests agree on the first 28 bits): inserted in separate requests they drive the hyper tree's insertion below
+		// the cache into the same stored batches - each must be answered, and the node must live on
+		{
+			byPrefix := map[uint32][]string{}
+			var triple []string
+			for i := 0; i < 4000000 && triple == nil; i++ {
+				e := fmt.Sprintf("invoice #%d", i)
+				d := sha256.Sum256([]byte(e))
+				k := binary.BigEndian.Uint32(d[:4]) >> 4
+				byPrefix[k] = append(byPrefix[k], e)
+				if len(byPrefix[k]) == 3 {
+					triple = byPrefix[k]
+				}
+			}
+			desc := map[string]interface{}{"seed": seed, "request": "POST /events, one request each, for events whose digests share their first 28 bits", "events": triple}
+			out.Note(desc)
+			out.Case("shared-prefix-events", triple != nil)
+			for _, e := range triple {
+				b, _ := json.Marshal(protocol.Event{Event: []byte(e)})
+				resp, err := (&http.Client{Timeout: 60 * time.Second}).Post(api.URL+"/events", "application/json", bytes.NewReader(b))
+				if err != nil {
+					out.Violate("C11:dropped-connection:api:POST /events", fmt.Sprintf("the insertion of %q (its digest shares 28 bits with an earlier event's) got no HTTP response: %v", e, err), desc)
+					break
+				}
+				io.ReadAll(resp.Body)
+				resp.Body.Close()
+				if resp.StatusCode >= 500 {
+					out.Violate("C11:internal-error-on-valid-request", fmt.Sprintf("the insertion of %q (its digest shares 28 bits with an earlier event's) is answered %d", e, resp.StatusCode), desc)
+				}
+			}
+			out.Count("shared_prefix_insertions", len(triple))
 		}
 		// a very large but well-formed bulk (16 384 short events, ~300 KB of JSON, a replicated command of more than half a
 		// megabyte): it is answered - accepted or refused - and the node lives on
